@@ -59,6 +59,12 @@ def oracle(cases, obs):
                     fails.append((i, k, "verify/cleanup changed a query answer")); break
             if o["oracle"]["canon"]:
                 fails.append((i, k, f"indices corrupted: {o['oracle']['canon']}")); break
+            qr = [q for q in (o.get("queries") or []) if isinstance(q, str)]
+            if qr:
+                fails.append((i, k, f"a read-only query (ref._tasks / _find_dependant_targets / find_deps) on a frozen manager raised: {qr[0]}")); break
+            if frozen and prev is not None and prev.get("queries") and o.get("queries") and op[0] not in ("freeze", "unfreeze") \
+                    and o["err"] == "ValueError" and o["queries"] != prev["queries"]:
+                fails.append((i, k, "query answers changed across a rejected call on a frozen manager")); break
             cl = o.get("clone")
             if cl and cl.get("problems") and not cl.get("cycle") and taint is None:
                 fails.append((i, k, f"a clone taken earlier (possibly while frozen) and the original are not independent: {cl['problems'][:2]}")); break
